@@ -116,6 +116,34 @@ func runC39(c *Ctx) {
 					}
 				}
 			}
+			// (c) handed back, with the error nil, by a helper that length-checked it on every such return
+			if ex, isEx := seeThrough(nonce).(*ssa.Extract); !ok && isEx {
+				if hc, isC := ex.Tuple.(*ssa.Call); isC {
+					if g := moduleHelperWithBody(&hc.Call); g != nil {
+						c.Analysed(g)
+						errIdx := g.Signature.Results().Len() - 1
+						behindNil, nn := MustCross(ci, func(e Edge, cond ssa.Value, truth bool) bool {
+							return errNilEdge(cond, truth, func(x *ssa.Call) bool { return x == hc })
+						})
+						all, n := behindNil && nn > 0, 0
+						for _, hr := range successReturns(g) {
+							if len(hr.Results) <= errIdx || !isNilConst(retVal(hr, errIdx)) {
+								continue // error return: not reached behind err == nil
+							}
+							n++
+							rv := retVal(hr, ex.Index)
+							same := func(v ssa.Value) bool { return seeThrough(v) == seeThrough(rv) }
+							r := RangeAt(hr.Block(), func(v ssa.Value) bool { return isLenOf(v, same) })
+							if !(r.HasLo() && r.HasHi() && r.Lo == 12 && r.Hi == 12) {
+								all = false
+							}
+						}
+						if all && n > 0 {
+							ok, how = true, "length-checked in "+g.Name()+" on every nil-error return"
+						}
+					}
+				}
+			}
 			c.Check("nonce-length", ci.Common().Method.Name()+"@"+shortName(fn), ci, ok,
 				"the nonce handed to AES-GCM is neither made with NonceSize() nor length-checked: crypto/cipher panics (\"incorrect nonce length given to GCM\") on identity data whose IV does not decode to 12 bytes "+how)
 			if ci.Common().Method.Name() != "Open" {
@@ -187,7 +215,7 @@ func runC39(c *Ctx) {
 		}
 		get := func(fn *ssa.Function) facts {
 			f := facts{splitter: -1}
-			eachInstr(fn, func(in ssa.Instruction) {
+			eachInstrDeep(fn, 2, func(in ssa.Instruction) {
 				for _, op := range in.Operands(nil) {
 					if g, ok := (*op).(*ssa.Global); ok {
 						if g.Name() == "HEADER" {
